@@ -116,6 +116,29 @@ func c13NestedPool() []ap.Item {
 	}
 }
 
+// pairwise distinct identity: ids that differ in one punctuation character whose code differs from the other's in the
+// bit that separates upper from lower case letters (@ and backtick, ^ and ~, [ and {, _ and DEL): no letters, no case
+func c13PunctPool() []ap.Item {
+	return []ap.Item{
+		ap.IRI("https://example.com/u/a@b"),
+		&ap.Object{ID: "https://example.com/u/a`b", Type: ap.NoteType},
+		ap.IRI("https://example.com/u/~x"),
+		&ap.Actor{ID: "https://example.com/u/^x", Type: ap.PersonType},
+		ap.Object{ID: "https://example.com/u/_y", Type: ap.ArticleType},
+	}
+}
+
+// pairwise distinct identity: the same query key repeated with the same values in other proportions
+func c13QueryPool() []ap.Item {
+	return []ap.Item{
+		ap.IRI("https://example.com/search?page=1&page=1&page=2"),
+		&ap.Object{ID: "https://example.com/search?page=1&page=2&page=2", Type: ap.NoteType},
+		ap.IRI("https://example.com/search?page=1&page=2"),
+		&ap.Actor{ID: "https://example.com/search?page=2&page=2&page=1&page=1", Type: ap.PersonType},
+		ap.Object{ID: "https://example.com/search?page=1", Type: ap.ArticleType},
+	}
+}
+
 // outside the property's domain: equivalent ids in different shapes, a link, an id-less object
 func c13OddPool() []ap.Item {
 	return []ap.Item{
@@ -346,18 +369,20 @@ func runC13(seed int64, n int, tier string, outDir string) (*Report, error) {
 	}
 	// the same natively over a second pool of pairwise distinct identity whose ids embed another absolute URL with the
 	// same tail (a proxy / share link): wherever the comparison cuts the scheme off, these stay five different members
-	cur = c13NestedPool()
-	for i := 0; i < n/2+60; i++ {
-		kind := i % len(c13Containers)
-		m := 3 + g.Intn(12)
-		ops := make([]c13Op, m)
-		for j := range ops {
-			ops[j] = c13Op{[]int{0, 0, 1, 2}[g.Intn(4)], g.Intn(len(cur))}
+	for pi, lookalike := range [][]ap.Item{c13NestedPool(), c13PunctPool(), c13QueryPool()} {
+		cur = lookalike
+		for i := 0; i < n/2+60; i++ {
+			kind := i % len(c13Containers)
+			m := 3 + g.Intn(12)
+			ops := make([]c13Op, m)
+			for j := range ops {
+				ops[j] = c13Op{[]int{0, 0, 1, 2}[g.Intn(4)], g.Intn(len(cur))}
+			}
+			check(kind, ops)
+			rep.Distinguish(fmt.Sprintf("lookalike%d:", pi)+c13Labels[kind]+fmt.Sprint(ops), nontrivial(ops))
+			rep.Count(fmt.Sprintf("random-look-alike-pool-%d", pi))
+			idx++
 		}
-		check(kind, ops)
-		rep.Distinguish("nested:"+c13Labels[kind]+fmt.Sprint(ops), nontrivial(ops))
-		rep.Count("random-nested-url-pool")
-		idx++
 	}
 	cur = pool
 	// variadic Append: several items in ONE call, with repeats inside the call and against the prior state
